@@ -121,9 +121,9 @@ impl Monitor for Mon {
                 }
             }
         }
-        if let Event::Deliver { to: Target::Unknown, reply } = st.ev {
-            if matches!(reply.class, RClass::Success | RClass::Error(_)) && !matches!(st.obs.res, CallRes::RecvErr(_)) {
-                rep.violate("reply-for-unknown-id-accepted", format!("{:?}", st.obs.res), replay());
+        if let Event::Deliver { to: Target::Unknown | Target::Near(..), reply } = st.ev {
+            if matches!(reply.class, RClass::Success | RClass::Error(_)) && (!matches!(st.obs.res, CallRes::RecvErr(_)) || !st.obs.events.is_empty()) {
+                rep.violate("reply-for-unknown-id-accepted", format!("{:?} events {:?}", st.obs.res, super::world::show_events(&st.obs.events)), replay());
             }
         }
     }
